@@ -4,7 +4,7 @@
    the occupancy split, the serial wrap, and "no made-up value".  The refinement read_pdb (render recs) = denote recs is
    established by correspondence only (see the level note). *)
 From Coq Require Import List Ascii String ZArith QArith Bool Lia.
-From PV Require Import Base.Sx Base.Text Base.Float Base.Group Spec.Hier Spec.PdbSpec Model.AddAtom Model.PdbLex Model.PdbParse Proofs.Decimal Proofs.C01just Proofs.C01line Proofs.C01group Proofs.C01sim Proofs.C01annot Gen.PdbColumns Spec.PdbColumnsDoc.
+From PV Require Import Base.Sx Base.Text Base.Float Base.Group Spec.Hier Spec.PdbSpec Model.AddAtom Model.PdbLex Model.PdbParse Proofs.Decimal Proofs.C01just Proofs.C01line Proofs.C01group Proofs.C01sim Proofs.C01annot Proofs.C01models Gen.PdbColumns Spec.PdbColumnsDoc.
 Import ListNotations.
 
 (* 1. inside a model: exactly one chain per chain id, in order of first appearance (and likewise one residue per key, one
@@ -139,6 +139,16 @@ Theorem C01_modres_pass_is_the_specification : forall p ln resname chain num ins
   fst (apply_modres p ln resname chain num ins std comment) = modres_step p (RModres resname chain num ins std comment).
 Proof. exact modres_pass_is_the_specification. Qed.
 
+(* MODEL records: for every sequence of well-formed coordinate, TER, MODEL and ENDMDL records from the start of a file, the
+   models the reader model has finished, followed by the one under construction, are - as (number, chains as keyed lists of
+   atoms) - the models of the specification walk partitioned by first appearance *)
+Theorem C01_reader_builds_the_models_of_the_records : forall rs : list (Z * rec), Forall (fun x => coord_rec (snd x)) rs ->
+  let s := fold_left (fun s x => step_item false false s (fst x) (coord_item (snd x))) rs st0 in
+  let w := fold_left walk_step (map snd rs) walk0 in
+  map abs_model (s_models s ++ match s_cur s with [] => [] | c => [model_of_cur (s_cur_num s) c] end) =
+  map (fun m => (fst m, spec_chains atom (snd m))) (close_model w).
+Proof. exact (fun rs => reader_builds_the_models_of_the_records false eq_refl rs). Qed.
+
 Print Assumptions C01_one_chain_per_id.
 Print Assumptions C01_occupancy_split_adds_up.
 Print Assumptions C01_wrap_continues.
@@ -156,3 +166,4 @@ Print Assumptions C01_reader_step_simulates_walk.
 Print Assumptions C01_reader_refines_walk_on_coordinate_runs.
 Print Assumptions C01_numeral_field_is_the_specified_value.
 Print Assumptions C01_modres_pass_is_the_specification.
+Print Assumptions C01_reader_builds_the_models_of_the_records.
